@@ -76,6 +76,46 @@ func (P *Prog) acceptedKinds(fn *ssa.Function) (kindTable, bool, string) {
 				val = &Term{Op: "res", S: "0", Args: []*Term{c.Pred.Args[0]}}
 			}
 		}
+		// the type test delegated to an in-package predicate over the same
+		// value: its kind table is accepted on this path
+		if typ == "" && rt.Op == "const" {
+			var g *ssa.Function
+			for _, c := range p.conds {
+				call := c.Pred
+				if call.Op == "res" && len(call.Args) == 1 {
+					call = call.Args[0]
+				}
+				if !c.Val || call.Op != "call" || len(call.Args) != 1 || !call.Args[0].eq(p0) {
+					continue
+				}
+				h := P.calleeOfTerm(call)
+				if h == nil || h == fn || boolResultIndex(h) < 0 {
+					continue
+				}
+				if c.Pred.Op == "res" && c.Pred.S != strconv.Itoa(boolResultIndex(h)) {
+					continue
+				}
+				g = h
+			}
+			if g != nil && !P.kindsBusy[g] {
+				if P.kindsBusy == nil {
+					P.kindsBusy = map[*ssa.Function]bool{}
+				}
+				P.kindsBusy[fn] = true
+				sub, ok, why := P.acceptedKinds(g)
+				delete(P.kindsBusy, fn)
+				if !ok {
+					return kt, false, "in " + shortFn(g) + ": " + why
+				}
+				for k, v := range sub {
+					if old, seen := kt[k]; seen && old != v {
+						v = ""
+					}
+					kt[k] = v
+				}
+				continue
+			}
+		}
 		if rt.Op != "const" {
 			// returns a computed boolean
 			if rt.Op == "res" && rt.S == "1" && rt.Args[0].Op == "typeassert" && rt.Args[0].Args[0].eq(p0) {
